@@ -20,6 +20,14 @@ rm $wt/$demo
 exec 9>/tmp/confirmseed.lock; flock 9
 (cd $wt && GOTOOLCHAIN=local go build ./... && GOTOOLCHAIN=local go test -vet=off -count=1 -timeout 25m ./... >/tmp/confirm_$id.root.log 2>&1); root_rc=$?
 (cd $wt/cmd/atlas && env -u GOSUMDB go build ./... && GIT_CONFIG_GLOBAL=/dev/null env -u GOSUMDB go test -vet=off -count=1 -timeout 25m ./... >/tmp/confirm_$id.cmd.log 2>&1); cmd_rc=$?
+# time-of-day flakes (TestFormatters, TestMigrate_New, TestPlanner_WritePlan cross a second boundary): re-run failed packages
+retry() { # dir log envprefix
+  local pk; pk=$(grep -E "^FAIL\s+ariga" $2 | awk '{print $2}' | sed "s#^ariga.io/atlas/cmd/atlas#.#; s#^ariga.io/atlas#.#" | sort -u)
+  [ -z "$pk" ] && return 1
+  for k in 1 2 3; do (cd $1 && env $3 GIT_CONFIG_GLOBAL=/dev/null go test -vet=off -count=1 $pk >>$2.retry 2>&1) && return 0; done; return 1
+}
+[ $root_rc != 0 ] && retry $wt /tmp/confirm_$id.root.log GOTOOLCHAIN=local && root_rc=0
+[ $cmd_rc != 0 ] && retry $wt/cmd/atlas /tmp/confirm_$id.cmd.log "-u GOSUMDB" && cmd_rc=0
 flock -u 9
 git -C /repo worktree remove --force $wt
 echo "confirm $id: demo_on_head=$head_rc (want 0) demo_with_patch=$pat_rc (want 1) suite_root=$root_rc suite_cmd=$cmd_rc (want 0 0)"
